@@ -15,7 +15,7 @@ from mc.space import seqs, chunked
 from pykdebugparser.trace_codes import from_trace_codes_text
 from pykdebugparser.pykdebugparser import PyKdebugParser
 
-IDFORMS = ['0x40c0548', '40c0548', '0X40C0548', '0x0', 'ffffffff', '0x00000001']
+IDFORMS = ['0x40c0548', '40c0548', '0X40C0548', '0x0', 'ffffffff', '0x00000001', '21000010', '10']      # the last two: no prefix, decimal digits only (still hex)
 NAMES = ['A', 'BSC_read', 'a.b-c', 'IO#x', '#n;//']
 SEPS = [' ', '\t', ' \t  ']
 TRAILS = ['', ' #comment', '\textra col fd 64 0x2100000c c',      # a tail whose words look like ids, the last one at the very end of the line
@@ -84,6 +84,9 @@ def edits():
     for n in dec[:3]:
         for L in (44, 45, 58, 100):
             out.append((f'long-name:{n}:{L}', lambda t, n=n, L=L: {k: (('LONG_' + 'x' * 39 + n + '_' * L)[:L] if v == n else v) for k, v in t.items()}))
+    # names holding braces / percent signs (nobody decodes them): listed verbatim
+    for n in dec[:2]:
+        out.append((f'brace-name:{n}', lambda t, n=n: {k: ('obj{x}{{y}}_%s_{0}' if v == n else v) for k, v in t.items()}))
     out.append(('long-names-sharing-a-prefix', lambda t: {k: ('P' * 44 + v if v in dec[:2] else v) for k, v in t.items()}))
     for a, b in itertools.combinations(dec, 2):
         def swap(t, a=a, b=b):
@@ -377,7 +380,7 @@ class C19(Check):
 
     def run_shard(self, desc, acc):
         if desc[0] == 'text2':
-            kinds = [(i, n, s, t) for i in range(6) for n in range(len(NAMES)) for s in range(3) for t in range(len(TRAILS))]
+            kinds = [(i, n, s, t) for i in range(len(IDFORMS)) for n in range(len(NAMES)) for s in range(3) for t in range(len(TRAILS))]
             first = [k for k in kinds if k[0] == desc[1]]
             for a in first:
                 for rest in [()] + [(b,) for b in kinds]:
